@@ -24,7 +24,7 @@ Fixpoint list_beq (a b : list bytes) : bool :=
 Definition is_suffix_b (s d : bytes) : bool := is_prefix (rev s) (rev d).
 
 (* C12.  meta ::= (12 rawTarget body) *)
-Definition chk_C12 (c o : value) : bool :=
+Definition chk_C12_peer (peer : bytes) (c o : value) : bool :=
   match c with
   | VL [VB head; VL segs; VI k; VL upops; VI refused; orc; VL [VI 12; VB raw; VB body]] =>
       match obs3 o, wf_head head, dec_env orc with
@@ -56,13 +56,13 @@ Definition chk_C12 (c o : value) : bool :=
                       (match filter (fun kv => negb (not_xff kv)) got with
                        | [(_, v)] =>
                            let client := flat_map (fun kv => items (snd kv)) (filter (fun kv => negb (not_xff kv)) sent) in
-                           list_beq (items v) (client ++ [PEER])
+                           list_beq (items v) (client ++ [peer])
                        | _ => false
                        end) &&
                       (match filter (fun kv => beq (fst kv) (B "x-real-ip")) got with
                        | [(_, v)] =>
                            match filter (fun kv => beq (fst kv) (B "x-real-ip")) sent with
-                           | [] => beq v PEER
+                           | [] => beq v peer
                            | (_, v0) :: _ => existsb (fun kv => beq (snd kv) v) (filter (fun kv => beq (fst kv) (B "x-real-ip")) sent)
                            end
                        | _ => false
@@ -77,6 +77,12 @@ Definition chk_C12 (c o : value) : bool :=
       | _, _, _ => true
       end
   | _ => true
+  end.
+
+Definition chk_C12 (c o : value) : bool :=
+  match c with
+  | VL [a1; a2; a3; a4; a5; a6; a7; VB peer] => chk_C12_peer peer (VL [a1; a2; a3; a4; a5; a6; a7]) o
+  | _ => chk_C12_peer PEER c o
   end.
 
 (* C13.  the upstream stream is the concatenation of what the script sends; the script may end with a close *)
